@@ -13,9 +13,12 @@ CVC5_TIMEOUT_MS = int(os.environ.get('PYVC_CVC5_MS', '15000'))
 CVC5 = '/usr/bin/cvc5'
 
 
-def _solver(timeout, mbqi=True):
+def _solver(timeout, mbqi=True, seed=0):
     s = z3.Solver()
     s.set('timeout', timeout)
+    if seed:
+        s.set('random_seed', seed)
+        s.set('smt.random_seed', seed)
     if not mbqi:
         s.set('smt.mbqi', False)
         s.set('auto_config', False)
@@ -90,7 +93,7 @@ def _has_q(e):
     return False
 
 
-def relevant_subsets(pc, goal, levels=(1, 2)):
+def relevant_subsets(pc, goal, levels=(1, 2, 3)):
     """Subsets of the hypotheses: ALL quantifier-free ones plus the quantified ones within a given distance
     of the goal in the symbol co-occurrence graph (heap arrays identified up to their havoc epoch; symbols that
     occur in most quantified hypotheses do not count as links).  Proving from a SUBSET of the hypotheses is
@@ -179,8 +182,10 @@ def discharge(ob, tier='quick'):
             ob.time = time.time() - t0
             return ob
         ob.detail = s.reason_unknown()
-    for sub in subsets:
-        s = _solver(max(quickto, full // 2), True)
+    # a retry additionally varies the solver's random seed: an `unknown` is a search that did not finish,
+    # and a different search order over the same (sub)set of hypotheses is as sound as the first
+    for sub, seed in [(sub, seed) for seed in ((0, 11, 23) if tier == 'retry' else (0,)) for sub in subsets]:
+        s = _solver(max(quickto, full // 2), True, seed)
         for i in sub:
             s.add(ob.pc[i])
         s.add(neg)
